@@ -738,8 +738,14 @@ func init() {
 func warnsAbout(stderr []byte, typ string) bool {
 	for _, l := range strings.Split(string(stderr), "\n") {
 		low := strings.ToLower(l)
-		if !(strings.Contains(low, "warn") || strings.Contains(low, "error") || strings.Contains(low, "fail")) {
-			continue
+		problem := false
+		for _, w := range []string{"warn", "error", "fail", "skip", "cannot", "can not", "unable", "unsupported", "invalid", "ignor", "omit"} {
+			if strings.Contains(low, w) {
+				problem = true
+			}
+		}
+		if !problem {
+			continue // e.g. the start-up dump of the configuration ("Types: [...]") does not count
 		}
 		for _, w := range strings.FieldsFunc(l, func(r rune) bool {
 			return !(r == '_' || r >= '0' && r <= '9' || r >= 'a' && r <= 'z' || r >= 'A' && r <= 'Z')
